@@ -210,7 +210,9 @@ def c15_semantics(r, seed, tier, model_ok):
             d = os.path.join(SCR, f"t{trial}"); os.makedirs(os.path.join(d, "ㄴ")); os.chdir(d); MOD._MODULE_REGISTRY.clear()
             body = R.choice(bodies); lit = R.choice([2, 3, 8]); fname = E(lit) + R.choice(["", ".txt", "ㅏ"]); open(os.path.join("ㄴ", fname), "w", encoding="utf-8").write(body)
             by_lit = f"ㄴ {E(lit)} ㅂㅎㄷ"; by_path = f"{strlit('ㄴ/' + fname)} ㅂㅎㄴ"; by_alias = f"{strlit('./ㄴ/../ㄴ/' + fname)} ㅂㅎㄴ"
-            a, b = R.sample([by_lit, by_path, by_alias], 2)
+            by_abs = f"{strlit(os.path.abspath(os.path.join('ㄴ', fname)))} ㅂㅎㄴ"
+            os.symlink(os.path.join("ㄴ", fname), "link-to-module"); by_link = f"{strlit('link-to-module')} ㅂㅎㄴ"
+            a, b = R.sample([by_lit, by_path, by_alias, by_abs, by_link], 2)
             is_fun = body.endswith("ㅎ")
             # (1) one object
             if is_fun:
